@@ -333,6 +333,9 @@ func cmdCheck(args []string) int {
 		}
 		jc.ReverseMaps = j.ReverseMaps
 		jc.MaxPaths = j.MaxPaths
+		if ts := envInt("SYMGO_TIMEOUT_S", 0); ts > 0 {
+			j.TimeoutS = int(ts)
+		}
 		if j.TimeoutS > 0 {
 			jc.Deadline = time.Now().Add(time.Duration(j.TimeoutS) * time.Second)
 		}
